@@ -127,7 +127,17 @@ def rule_A2(ctx, prog, label, rule='A2'):
         for fld in ('width', 'high_bitmask'):
             for fn, n in writers.get(fld, []):
                 if (fn == c or c in owner_of.get(fn, ())) and n.kind == 'BinaryOperator':
-                    forms.setdefault(fld, {})[c] = _normalise(pp(strip(n.kids[1], casts=True)))
+                    wf = prog.func(fn)
+                    wfs = fs if fn == c else FuncSym(wf)
+                    pidx = dict((p_.id, i) for i, p_ in enumerate(wf.params))
+                    t = _canon(n.kids[1], wfs, pidx)
+                    if fn == 'mzd_init_window':
+                        t = t.replace('(P4-P2)', 'n')
+                    elif fn == 'mzd_init':
+                        t = t.replace('P1', 'n')
+                    else:
+                        t = _normalise(pp(strip(n.kids[1], casts=True)))
+                    forms.setdefault(fld, {})[c] = t
     for fld in ('width', 'high_bitmask'):
         rr.instances += 1
         a = forms.get(fld, {}).get('mzd_init')
@@ -155,8 +165,10 @@ def rule_A2(ctx, prog, label, rule='A2'):
             c = strip(ifs.kids[0], casts=True)
             if c.kind == 'BinaryOperator' and c.op == '!=' and int_value(c.kids[1]) == 0:
                 c = strip(c.kids[0], casts=True)
-            want = fsw.sym(fw.params[4]) if False else None
-            if c.kind == 'BinaryOperator' and c.op == '%' and int_value(c.kids[1]) == 64:
+            for _ in range(3):
+                if c.kind == 'DeclRefExpr' and c.refkind == 'VarDecl' and fsw.single_def(c.refid) is not None:
+                    c = strip(fsw.single_def(c.refid), casts=True)
+            if c.kind == 'BinaryOperator' and c.op == '%' and (int_value(c.kids[1]) == 64 or pp(strip(c.kids[1], casts=True)) == 'm4ri_radix'):
                 x = fsw.sym(c.kids[0])
                 from .symbolic import Lin
                 if x == Lin.atom('highc') - Lin.atom('lowc'):
@@ -185,6 +197,44 @@ def rule_A2(ctx, prog, label, rule='A2'):
           Finding(rule, '%s|rowstride|even' % rule, prog.func('mzd_init').loc, 'mzd_init',
                   'mzd_init no longer rounds rowstride to an even number of words (`%s`): rows of owners lose their 16-byte phase' % e, {}, label))
     return rr
+
+
+def _canon(e, fs, pidx, depth=0):
+    """fully parenthesised canonical text: casts and parentheses dropped, parameters printed as P<i>, locals that are
+    defined once replaced by their definition - so that hoisting a sub-expression into a const local changes nothing"""
+    e0 = strip(e, casts=True)
+    if e0 is None:
+        return '?'
+    v = int_value(e0)
+    if v is not None:
+        return str(v)
+    k = e0.kind
+    if k == 'DeclRefExpr':
+        if e0.ref == 'm4ri_radix':
+            return '64'
+        if e0.refid in pidx:
+            return 'P%d' % pidx[e0.refid]
+        if e0.refkind == 'VarDecl' and depth < 5:
+            d = fs.single_def(e0.refid)
+            if d is not None:
+                return _canon(d, fs, pidx, depth + 1)
+        return e0.ref or '?'
+    if k == 'MemberExpr':
+        return _canon(e0.kids[0], fs, pidx, depth) + ('->' if e0.arrow else '.') + (e0.name or '?')
+    if k in ('BinaryOperator', 'CompoundAssignOperator'):
+        return '(' + _canon(e0.kids[0], fs, pidx, depth) + e0.op + _canon(e0.kids[1], fs, pidx, depth) + ')'
+    if k == 'UnaryOperator':
+        return '(' + e0.op + _canon(e0.kids[0], fs, pidx, depth) + ')'
+    if k == 'ConditionalOperator':
+        return '(' + '?'.join(_canon(x, fs, pidx, depth) for x in e0.kids[:1]) + '?' + _canon(e0.kids[1], fs, pidx, depth) + ':' + _canon(e0.kids[2], fs, pidx, depth) + ')'
+    if k == 'CallExpr':
+        return (callee_name_(e0) or '?') + '(' + ','.join(_canon(a, fs, pidx, depth) for a in e0.kids[1:]) + ')'
+    return pp(e0).replace(' ', '')
+
+
+def callee_name_(c):
+    from .ast import callee_name
+    return callee_name(c)
 
 
 def _normalise(txt):
